@@ -54,7 +54,7 @@ REQUIRED_COUNTERS = ['trials_checked', 'runs_reproduced',
                      'split_runs_compared', 'calibration_cells',
                      'exact_enumerations', 'failures_observed',
                      'get_results_checked', 'batch_runs',
-                     'batch_shared_error_model']
+                     'batch_shared_error_model', 'interrupted_runs']
 SHARD_TIMEOUT = {'quick': 900, 'thorough': 5400}
 
 DIRS = {'depol': (1 / 3, 1 / 3, 1 / 3), 'biasZ3': (0.125, 0.125, 0.75),
@@ -426,6 +426,8 @@ def plan(tier, seed):
                       'cost': N * 3 * len(sizes) + 2000})
     if tier == 'thorough':
         tasks.append({'kind': 'contracts', 'cost': 60000})
+    tasks.append({'kind': 'interrupted', 'seed': seed,
+                  'reps': 4 if tier == 'quick' else 40, 'cost': 3000})
     # larger codes: self-consistency + reproducibility only
     big = [('MatchingDecoder', 'Toric2DCode', (4, 5)),
            ('MatchingDecoder', 'Planar2DCode', (5, 5)),
@@ -462,6 +464,69 @@ def plan(tier, seed):
                           'N': Nb, 'calibrate': False, 'seed': seed,
                           'cost': Nb * per * 2 + 500})
     return tasks
+
+
+class _Abort(Exception):
+    pass
+
+
+def run_interrupted(task, out):
+    """A run(k) that is cut short (KeyboardInterrupt / exception raised by
+    the decoder in a later trial); the same object is then inspected and
+    continued: lists, n_runs and the estimator must stay in step."""
+    rng = np.random.default_rng([task['seed'], 1114])
+    for cls, size, dname in (('Toric2DCode', (3, 3), 'MatchingDecoder'),
+                             ('Planar2DCode', (3, 3), 'MatchingDecoder'),
+                             ('RotatedPlanar2DCode', (3, 3),
+                              'BeliefPropagationOSDDecoder')):
+        for exc in (KeyboardInterrupt, _Abort):
+            for rep in range(task['reps']):
+                cell = {'decoder': dname, 'cls': cls, 'size': list(size),
+                        'noise': 'depol', 'noise_def': None, 'rate': 0.15}
+                desc = dict(cell, k='interrupted-run', exc=exc.__name__)
+                mech = f'{dname}/{cls}/interrupted-run'
+                rec = Recorder()
+                try:
+                    code, em, dec, sim = make_cell(cell, int(
+                        rng.integers(0, 2 ** 31)))
+                    k1 = int(rng.integers(2, 12))
+                    stop_at = int(rng.integers(1, k1))   # trial that dies
+                    real_decode = dec.decode
+                    calls = {'n': 0}
+
+                    def decode(s, _c=calls, _r=real_decode, **kw):
+                        _c['n'] += 1
+                        if _c['n'] == stop_at + 1:
+                            raise exc('injected')
+                        return _r(s, **kw)
+                    dec.decode = decode
+                    rec.shots = []
+                    try:
+                        sim.run(k1)
+                    except (KeyboardInterrupt, _Abort):
+                        pass
+                    dec.decode = real_decode
+                    out.count('interrupted_runs')
+                    done = len(rec.shots)
+                    check_results(out, sim, rec.shots, desc, mech)
+                    k2 = int(rng.integers(1, 6))
+                    sim.run(k2)
+                    check_results(out, sim, rec.shots, desc, mech)
+                    if len(rec.shots) != done + k2:
+                        out.violation(f'{mech}/continued-run-count',
+                                      f'{len(rec.shots)} trials executed, '
+                                      f'{done}+{k2} expected', desc)
+                    out.case(dict(desc, k1=k1, stop_at=stop_at, k2=k2,
+                                  rep=rep), True)
+                except Exception as e:
+                    where = panqec_frame(e)
+                    if where is None:
+                        raise
+                    out.violation(f'{mech}/raises-{type(e).__name__}',
+                                  f'{type(e).__name__}: {e} at {where}',
+                                  desc)
+                finally:
+                    rec.close()
 
 
 def run_batch(task, out):
@@ -550,7 +615,9 @@ def run_task(task, out):
         from pv.pytest_contracts import run_contract_suite
         run_contract_suite(out, 'run_once', 'run_once')
         return
-    if task.get('kind') == 'batch':
+    if task.get('kind') == 'interrupted':
+        run_interrupted(task, out)
+    elif task.get('kind') == 'batch':
         run_batch(task, out)
     else:
         run_cell(task, out)
